@@ -82,6 +82,9 @@ class CoreMixin:
 
     # ------------------------------------------------------------------ effects
     def effect(self, kind, site, st: St, fr: Frame, node=None, **data):
+        fs = self.__dict__.get("_finally_stack")
+        if fs:
+            data["in_finally"] = tuple(fs)
         e = Effect(kind, site, st.pc, fr.chain if fr else (), node=node, **data)
         self.effects.append(e)
         return e
